@@ -222,12 +222,9 @@ class Fragment:
 
         ports = self._prepare_ports(ports)
 
+        new_domains = []
         if propagate_domains:
             new_domains = self._propagate_domains(missing_domain)
-            for domain in new_domains:
-                ports.append((None, domain.clk, PortDirection.Input))
-                if domain.rst is not None:
-                    ports.append((None, domain.rst, PortDirection.Input))
 
         def resolve_signal(signal):
             if isinstance(signal, _ast.ClockSignal):
@@ -245,6 +242,13 @@ class Fragment:
             (name, resolve_signal(signal), dir)
             for name, signal, dir in ports
         ]
+
+        # Expose the clock and reset of each newly created domain, unless the caller has already
+        # listed them (e.g. as `ClockSignal()`); listing a signal twice would make it conflict with itself.
+        for domain in new_domains:
+            for signal in (domain.clk, domain.rst):
+                if signal is not None and not any(signal is port for _, port, _ in ports):
+                    ports.append((None, signal, PortDirection.Input))
 
         fragment = DomainLowerer()(self)
 
